@@ -22,6 +22,7 @@ inductive Pc where
   | needDel (fid sz : Nat)          -- won `_busy`, must grow: about to `operator delete(_ptr)`
   | needNew (fid sz : Nat)          -- won `_busy`, about to `_ptr = operator new(sz + 8)`
   | needPriv (fid sz : Nat)         -- lost `_busy`, about to `operator new(sz + 8)` for a private block
+  | needUnbusy (fid : Nat)          -- the growth's `operator new` threw: about to `_busy.store(false)` and rethrow
   deriving DecidableEq, Repr, Inhabited
 
 structure State where
@@ -85,13 +86,15 @@ def stepGo (s : State) (t : Nat) : State × Res :=
       (setPc { s with heap := s.heap.new (sz + 8),
                       frames := s.frames ++ [⟨fid, Blk.heap s.heap.next, sz, true⟩] } t Pc.idle,
        Res.done fid (Blk.heap s.heap.next))
+  | Pc.needUnbusy fid => (setPc { s with busy := false } t Pc.idle, Res.failed fid)
 
 /-- the pending `operator new` throws.  Private block: nothing had happened.  Growth of the shared block (repaired
-code): the old block is gone, `_ptr = nullptr; _capacity = 0;`, and `_busy` is cleared before the exception leaves. -/
+code): the old block is gone, `_ptr = nullptr; _capacity = 0;`; `_busy` is cleared by the next hooked operation
+(`needUnbusy`), then the exception leaves. -/
 def stepGoFail (s : State) (t : Nat) : State × Res :=
   match s.pc t with
   | Pc.needNew fid _ =>
-      (setPc { s with ptr := none, cap := 0, dangling := false, busy := false } t Pc.idle, Res.failed fid)
+      (setPc { s with ptr := none, cap := 0, dangling := false } t (Pc.needUnbusy fid), Res.paused "store")
   | Pc.needPriv fid _ => (setPc s t Pc.idle, Res.failed fid)
   | _ => stepGo s t
 
@@ -178,6 +181,7 @@ def stepGo (s : AState) (t : Nat) : AState :=
   | Pc.needPriv fid sz =>
       match anew s (sz + 8) with
       | (s1, a) => setPc { s1 with frames := s.frames ++ [⟨fid, a, sz⟩] } t Pc.idle
+  | Pc.needUnbusy _ => s
 
 /-- `if (ptr == me->_ptr) me->_busy.store(false) else ::operator delete(ptr)` -/
 def stepFree (s : AState) (id : Nat) : AState :=
